@@ -79,4 +79,7 @@ CmtInv == R.kind = "cmt" =>
    /\ NonText(R.ev2) = NonText(R.ev)                            \* and plays the same music
    /\ LET onTicks == {e[2] : e \in {R.ev[j] : j \in {x \in 1..Len(R.ev) : IsOn(R.ev[x])}}} IN
       \A t \in onTicks : \E j \in 1..Len(Texts(R.ev2)) : Texts(R.ev2)[j][2] = t /\ Texts(R.ev2)[j][8] # <<>>   \* each chord got its name as text
+\* a long piece (its YAML is larger than a mebibyte) goes through the pipe whole: 4 keys per C triad, one beat each
+BigPipeInv == R.kind = "bigpipe" =>
+   /\ R.convOk /\ R.writeOk /\ R.ons = 4 * R.n /\ R.eot = 960 * R.n
 =============================================================================
